@@ -426,22 +426,46 @@ const PRINT_FLAGS: [(&str, u16); 9] = [
 /// The bytes of a hex dump: the rows are the lines whose every token is two hex digits; a line
 /// that is something else (a heading, a summary) is not part of the dump and is left alone.
 /// None when there is text but not a single row.
+/// The bytes of one row of a dump: two-digit hex tokens, optionally behind an address column -
+/// at most two leading tokens that cannot be mistaken for a byte (a hexadecimal address of three
+/// or more digits with or without `0x` and a trailing `:` or `|`, or bare punctuation). Anything
+/// else on the line and it is not a row.
+fn row_bytes(line: &str) -> Option<Vec<u8>> {
+    let toks: Vec<&str> = line.split_whitespace().collect();
+    if toks.is_empty() {
+        return None;
+    }
+    let is_byte = |t: &str| t.len() == 2 && t.bytes().all(|b| b.is_ascii_hexdigit());
+    let is_addr = |t: &str| {
+        let t = t.trim_end_matches(|c| c == ':' || c == '|');
+        let d = t.strip_prefix("0x").or_else(|| t.strip_prefix("0X")).unwrap_or(t);
+        d.len() >= 3 && d.bytes().all(|b| b.is_ascii_hexdigit())
+    };
+    let is_punct = |t: &str| !t.is_empty() && t.bytes().all(|b| matches!(b, b'|' | b':' | b'>' | b'-'));
+    let mut k = 0;
+    while k < toks.len() && k < 2 && !is_byte(toks[k]) && (is_addr(toks[k]) || is_punct(toks[k])) {
+        k += 1;
+    }
+    if k == toks.len() || !toks[k..].iter().all(|t| is_byte(t)) {
+        return None;
+    }
+    Some(toks[k..].iter().map(|t| u8::from_str_radix(t, 16).unwrap()).collect())
+}
+
 fn dump_tokens(out: &str) -> Option<Vec<u8>> {
     let mut v = Vec::new();
     let mut rows = 0;
     let mut other = 0;
     for line in out.split('\n') {
-        let toks: Vec<&str> = line.split_whitespace().collect();
-        if toks.is_empty() {
+        if line.trim().is_empty() {
             continue;
         }
-        if toks.iter().all(|t| t.len() == 2 && t.bytes().all(|b| b.is_ascii_hexdigit())) {
-            rows += 1;
-            for t in toks {
-                v.push(u8::from_str_radix(t, 16).unwrap());
+        match row_bytes(line) {
+            Some(b) => {
+                rows += 1;
+                v.extend(b);
             }
-        } else {
-            other += 1;
+            None => other += 1,
         }
     }
     if rows == 0 && other > 0 {
@@ -452,11 +476,7 @@ fn dump_tokens(out: &str) -> Option<Vec<u8>> {
 
 /// the rows of a dump only (for the layout check)
 fn dump_rows(out: &str) -> Vec<usize> {
-    out.split('\n')
-        .map(|l| l.split_whitespace().collect::<Vec<&str>>())
-        .filter(|t| !t.is_empty() && t.iter().all(|x| x.len() == 2 && x.bytes().all(|b| b.is_ascii_hexdigit())))
-        .map(|t| t.len())
-        .collect()
+    out.split('\n').filter_map(row_bytes).map(|b| b.len()).collect()
 }
 
 /// Check the output of one print command against the probed state.
@@ -556,14 +576,13 @@ pub fn check_print_output(
                         ));
                     } else {
                         // layout: upper-case, 16 per row except the last
+                        // (byte tokens only: an address column may be written as it likes)
                         let row_text: String = out
                             .split('\n')
-                            .filter(|l| {
-                                let t: Vec<&str> = l.split_whitespace().collect();
-                                !t.is_empty() && t.iter().all(|x| x.len() == 2 && x.bytes().all(|b| b.is_ascii_hexdigit()))
-                            })
+                            .filter(|l| row_bytes(l).is_some())
+                            .flat_map(|l| l.split_whitespace().filter(|x| x.len() == 2 && x.bytes().all(|b| b.is_ascii_hexdigit())))
                             .collect::<Vec<&str>>()
-                            .join("\n");
+                            .join(" ");
                         if row_text.chars().any(|c| c.is_ascii_lowercase()) {
                             v.push(Violation::new(
                                 format!("C17:mem_layout{{{};{}}}", form, route),
